@@ -29,6 +29,9 @@
 //!                                E <name> <arity> <mode> <k>          the sweep was left at tuple k (non-local exit)
 //!                                G <name> <arity> <mode> ok=<n> err=<n> frames=<f> stack=<s> probe=<same|hex>
 //!                              H <name> <arity> <mode> <k> after_panic=<0|1> : tuple k did not return in time; exit status 3
+//!   c07 phase <out>            stdin = `T <id> <hex>` jobs: records `PH <id> start|read|expand|compile|run` as the text gets
+//!                              through the reader, the expander, the compiler and the VM (names the phase that dies)
+//!   K <file:line> | <via> | <message>     written by the panic hook at once (the last K before a death names an abort's panic)
 //!   END                        last record of a complete run.
 //! Environment: C07_SOFT_MS (interrupt after), C07_HARD_MS (give up after), the usual STEEL_* switches.
 use std::io::{Read, Write};
@@ -52,7 +55,7 @@ const POOL: &[&str] = &[
     // rationals with boundary components
     "1/2", "-1/2", "2147483647/2", "1/2147483647", "-2147483647/2147483646", "(/ (expt 10 30) 3)",
     // inexact
-    "0.0", "-0.0", "1.5", "-2.5", "5e-324", "+inf.0", "-inf.0", "+nan.0", "1e308", "9007199254740993.0",
+    "0.0", "(/ -1.0 +inf.0)", "1.5", "-2.5", "5e-324", "+inf.0", "-inf.0", "+nan.0", "1e308", "9007199254740993.0",
     // complex
     "1+2i",
     // booleans, characters, strings, symbols
@@ -67,7 +70,7 @@ const POOL: &[&str] = &[
     // procedures
     "(lambda (x) x)", "(lambda () 1)", "(lambda args args)", "car", "c07-k",
     // boxes, structs, ports, misc
-    "(box 1)", "(C07S 1 2)", "(open-input-string \"abc def\")", "(open-output-string)", "void", "(void)", "(eof-object)",
+    "(box 1)", "(C07S 1 2)", "(open-input-string \"abc def\")", "(open-output-string)", "void", "(eof-object)",
     "(with-handler (lambda (e) e) (error \"x\"))", "(Some 1)", "(Err 2)", "empty-stream", "(mapping (lambda (x) x))",
     "(make-weak-box (list 1))", "(mutex)", "(instant/now)",
 ];
@@ -168,6 +171,7 @@ fn install_hook() {
                 }
             }
         }
+        emit(&format!("K {} | {} | {}", loc, via, one_line(&msg)));
         if let Ok(mut g) = PANICS.lock() {
             g.push(PanicRec { loc, msg: one_line(&msg), via, thread: std::thread::current().id() });
         }
@@ -181,6 +185,8 @@ fn take_panics() -> Vec<PanicRec> {
 // ------------------------------------------------------------------------------------------- output + watchdog
 
 static OUT: Mutex<Option<std::fs::File>> = Mutex::new(None);
+/// `<out>.k`: the index of the tuple being applied, rewritten in place before every application (survives an abort)
+static KFILE: std::sync::OnceLock<std::fs::File> = std::sync::OnceLock::new();
 
 fn emit(line: &str) {
     if let Ok(mut g) = OUT.lock() {
@@ -294,6 +300,10 @@ fn new_engine() -> Engine {
     let mut e = Engine::new();
     e.register_fn("c07-at", |k: isize| -> bool {
         CUR_K.store(k as i64, Ordering::SeqCst);
+        if let Some(f) = KFILE.get() {
+            use std::os::unix::fs::FileExt;
+            let _ = f.write_at(&(k as i64).to_le_bytes(), 0);
+        }
         STEP_START_MS.store(now_ms(*T0.get().unwrap()), Ordering::SeqCst);
         true
     });
@@ -412,7 +422,9 @@ fn run_texts(jobs: Vec<String>, t0: Instant) {
                     let q = probe(&mut engine);
                     RUNNING.store(false, Ordering::SeqCst);
                     emit(&format!("Q {} {}", id, q));
-                    if q != "same" {
+                    if q != "same" || matches!(r, Out::Panic(_)) {
+                        // a caught panic leaves the VM in an unspecified state: its state is reported (D, Q above)
+                        // and the run continues on a fresh engine so that later results are not consequences of it
                         engine = new_engine();
                         set_controller(&engine);
                         emit(&format!("N {}", id));
@@ -426,6 +438,32 @@ fn run_texts(jobs: Vec<String>, t0: Instant) {
 }
 
 /// (interrupt, resume) of the current engine's controller (its type is not nameable outside the crate)
+/// which phase of the pipeline a text gets through (used to name the phase that overflows the native stack)
+fn run_phases(jobs: Vec<String>) {
+    for job in jobs {
+        let f: Vec<&str> = job.split(' ').collect();
+        if f[0] != "T" || f.len() < 3 {
+            continue;
+        }
+        let id = f[1];
+        let text = String::from_utf8_lossy(&unhex(f[2])).into_owned();
+        emit(&format!("PH {} start", id));
+        let _ = catch_unwind(AssertUnwindSafe(|| Engine::emit_ast(&text).map(|_| ())));
+        emit(&format!("PH {} read", id));
+        let mut engine = new_engine();
+        let _ = catch_unwind(AssertUnwindSafe(|| engine.emit_expanded_ast(&text, None).map(|_| ())));
+        emit(&format!("PH {} expand", id));
+        let mut engine = new_engine();
+        let prog = catch_unwind(AssertUnwindSafe(|| engine.emit_raw_program_no_path(text.clone())));
+        emit(&format!("PH {} compile", id));
+        if let Ok(Ok(prog)) = prog {
+            let _ = catch_unwind(AssertUnwindSafe(|| engine.run_raw_program(prog).map(|_| ())));
+        }
+        emit(&format!("PH {} run", id));
+    }
+    emit("END");
+}
+
 static CONTROLLER: Mutex<Option<(Box<dyn Fn() + Send>, Box<dyn Fn() + Send>)>> = Mutex::new(None);
 
 fn set_controller(engine: &Engine) {
@@ -479,6 +517,7 @@ fn lookup_builtin(engine: &Engine, module: &str, name: &str) -> Option<SteelVal>
 fn run_builtins(jobs: Vec<String>, t0: Instant) {
     let mut engine = sweep_engine();
     let max_panics: usize = std::env::var("C07_MAX_PANICS").ok().and_then(|s| s.parse().ok()).unwrap_or(24);
+    let max_same: usize = std::env::var("C07_MAX_SAME").ok().and_then(|s| s.parse().ok()).unwrap_or(8);
     for job in jobs {
         let f: Vec<&str> = job.split(' ').collect();
         if f[0] != "F" || f.len() < 7 {
@@ -498,6 +537,7 @@ fn run_builtins(jobs: Vec<String>, t0: Instant) {
         OKS.store(0, Ordering::SeqCst);
         ERRS.store(0, Ordering::SeqCst);
         let mut panics = 0usize;
+        let mut per_loc: std::collections::HashMap<String, usize> = std::collections::HashMap::new();
         let label = format!("{} {} {}", name, arity, mode);
         while start < end {
             set_step(&label, t0);
@@ -524,8 +564,24 @@ fn run_builtins(jobs: Vec<String>, t0: Instant) {
                     emit(&format!("P {} {} {} {} {}", name, arity, mode, k, p));
                     AFTER_PANIC.store(true, Ordering::SeqCst);
                     panics += 1;
-                    let _ = eval(&mut engine, DEFINE_K.to_string());
-                    if panics >= max_panics {
+                    let loc = p.split(" | ").next().unwrap_or("").to_string();
+                    let same = {
+                        let c = per_loc.entry(loc).or_insert(0);
+                        *c += 1;
+                        *c
+                    };
+                    // state of the engine after the caught panic, then continue on a fresh engine
+                    set_step(&format!("{} (after panic)", label), t0);
+                    CUR_K.store(k, Ordering::SeqCst);
+                    RUNNING.store(true, Ordering::SeqCst);
+                    let d = depth(&mut engine);
+                    let q = probe(&mut engine);
+                    RUNNING.store(false, Ordering::SeqCst);
+                    emit(&format!("A {} {} {} {} depth={} probe={}", name, arity, mode, k, d.replace(' ', ","), q));
+                    engine = sweep_engine();
+                    engine.register_value("c07-f", lookup_builtin(&engine, module, name).unwrap_or(SteelVal::Void));
+                    AFTER_PANIC.store(false, Ordering::SeqCst);
+                    if panics >= max_panics || same >= max_same {
                         emit(&format!("TRUNC {} {} {} {}", name, arity, mode, k));
                         break;
                     }
@@ -586,7 +642,7 @@ fn main() {
             println!(";;; prelude\n{}\n{}", PRELUDE, DEFINE_K);
             return;
         }
-        "texts" | "builtins" => {}
+        "texts" | "builtins" | "phase" => {}
         _ => {
             eprintln!("usage: c07 list|pool|probe|texts <out>|builtins <out>");
             std::process::exit(2);
@@ -596,6 +652,9 @@ fn main() {
     *OUT.lock().unwrap() = Some(
         std::fs::OpenOptions::new().create(true).append(true).open(&out_path).expect("cannot open the record file"),
     );
+    if cmd == "builtins" {
+        let _ = KFILE.set(std::fs::OpenOptions::new().create(true).write(true).truncate(true).open(format!("{}.k", out_path)).expect("k file"));
+    }
     let mut src = String::new();
     std::io::stdin().read_to_string(&mut src).unwrap();
     let jobs: Vec<String> = src.lines().map(|l| l.trim_end().to_string()).filter(|l| !l.is_empty()).collect();
@@ -611,6 +670,8 @@ fn main() {
         .spawn(move || {
             if mode == "texts" {
                 run_texts(jobs, t0)
+            } else if mode == "phase" {
+                run_phases(jobs)
             } else {
                 run_builtins(jobs, t0)
             }
